@@ -407,7 +407,7 @@ Qed.
 Lemma sim_sub : forall c s p sid space pats, Inv s -> rel s p -> sim c s p (ESub sid space pats).
 Proof.
   intros c s p sid space pats HI HR. pose proof HR as [R1 R2 R3 R4 R5 R6 R7]. unfold sim, svc_step, svc_step_gen.
-  fold (handle_sub c s sid space pats). cbn [spec_step]. rewrite R1.
+  fold (handle_sub c s sid space pats). cbn [spec_step]. unfold spec_sub. rewrite R1.
   destruct (nassoc sid (sv_conns s)) as [acct|] eqn:EC.
   2:{ unfold handle_sub, handle_sub_gen. rewrite EC. cbn [fst snd]. eexists. split; [reflexivity|exact HR]. }
   destruct (sub_exact c s sid space pats acct HI EC) as (Ec & Em & Er & Hip & Hcase).
@@ -889,6 +889,93 @@ Proof.
   - apply ndR_evict. exact H.
   - exact H.
   - exact H.
+  - fold (handle_sub_mid c s sid victim space pats). unfold handle_sub_mid, handle_sub_mid_gen.
+    fold (handle_sub c (drop_pool s victim) sid space pats). fold (handle_sub c s sid space pats).
+    destruct (sub_reaches_tagging c s sid space pats).
+    + pose proof (ndR_sub c (drop_pool s victim) sid space pats H) as H2.
+      destruct (handle_sub c (drop_pool s victim) sid space pats) as [s2 o]. cbn [fst] in *.
+      unfold ndR in *. rewrite on_stream_close_unfold. destruct (nassoc victim (sv_streams s2)); cbn [sv_remote]; [|exact H2].
+      apply ndR_close_fold. exact H2.
+    + pose proof (ndR_sub c s sid space pats H) as H2. destruct (handle_sub c s sid space pats) as [s2 o]. cbn [fst] in *.
+      apply ndR_pool_remove. exact H2.
+Qed.
+
+(* ------------------------------------------------------------------ a stream leaves the pool in the middle of handleSubscribe *)
+
+Lemma sub_frame_mr : forall c s sid space pats,
+  sv_members (fst (handle_sub c s sid space pats)) = sv_members s /\ sv_rate (fst (handle_sub c s sid space pats)) = sv_rate s.
+Proof.
+  intros. unfold handle_sub, handle_sub_gen.
+  destruct (nassoc sid (sv_conns s)); [|auto].
+  destruct (negb (memN space (resp c))); [auto|].
+  destruct (negb (forallb validate_pattern pats)); [auto|].
+  destruct (negb (is_member s space n)); [auto|].
+  destruct (sub_loop _ _ _ _ _ _) as [[[[sp' total'] tr'] accepted] rejected].
+  destruct (is_nil accepted); [auto|].
+  destruct (nassoc sid (sv_pool s)); [auto|].
+  destruct (remove_patterns _ _ _ _ _) as [[st2 tr2] r2]. auto.
+Qed.
+
+Lemma sub_mid_frame : forall c s sid victim space pats, Inv s ->
+  let r := fst (handle_sub_mid c s sid victim space pats) in
+  sv_conns r = sv_conns s /\ sv_members r = sv_members s /\ sv_rate r = sv_rate s
+  /\ forall x, in_pool r x = in_pool s x && negb (N.eqb x victim).
+Proof.
+  intros c s sid victim space pats HI. cbv zeta. rewrite (proj1 (mid_state c s sid victim space pats HI)).
+  destruct (pool_remove_frame (mid_pre c s sid victim space pats) victim) as (Ec & Em & Er & Hip).
+  rewrite Ec, Em, Er. destruct (sub_frame_mr c s sid space pats) as [Em1 Er1].
+  assert (Hpre : sv_conns (mid_pre c s sid victim space pats) = sv_conns s
+                 /\ sv_members (mid_pre c s sid victim space pats) = sv_members s
+                 /\ sv_rate (mid_pre c s sid victim space pats) = sv_rate s).
+  { unfold mid_pre. destruct (mid_self c s sid victim space pats).
+    - destruct (unsub_frame (fst (handle_sub c s sid space pats)) sid space (sub_accepted c s sid space pats)) as (A & B & C & _).
+      rewrite A, B, C, conns_sub. auto.
+    - rewrite conns_sub. auto. }
+  destruct Hpre as (A & B & C). split; [exact A|split; [exact B|split; [exact C|]]].
+  intros x. rewrite Hip, in_pool_mid_pre. reflexivity.
+Qed.
+
+Lemma reaches_elig : forall c s sid space pats, sub_reaches_tagging c s sid space pats = true ->
+  exists acct, nassoc sid (sv_conns s) = Some acct /\ sub_elig c s acct space pats = true.
+Proof.
+  intros c s sid space pats H. unfold sub_reaches_tagging, sub_accepted in H. unfold sub_elig.
+  destruct (nassoc sid (sv_conns s)) as [acct|]; [|discriminate]. exists acct. split; [reflexivity|].
+  destruct (memN space (resp c)); [|discriminate].
+  destruct (forallb validate_pattern pats); [|discriminate].
+  destruct (is_member s space acct); [reflexivity|discriminate].
+Qed.
+
+Lemma sim_submid : forall c s p sid victim space pats, Inv s -> rel s p -> sim c s p (ESubMid sid victim space pats).
+Proof.
+  intros c s p sid victim space pats HI HR. unfold sim, svc_step, svc_step_gen.
+  fold (handle_sub_mid c s sid victim space pats). cbn [spec_step].
+  rewrite (proj2 (mid_state c s sid victim space pats HI)).
+  destruct (mid_self c s sid victim space pats) eqn:Em.
+  - (* the subscribing stream itself left the pool before AddTagsCtx: nothing reaches it, nothing stays registered *)
+    unfold mid_self in Em. apply andb_true_iff in Em. destruct Em as [Em Eip]. apply andb_true_iff in Em. destruct Em as [Ev Er].
+    apply N.eqb_eq in Ev. subst victim. pose proof HR as [R1 R2 R3 R4 R5 R6 R7].
+    destruct (reaches_elig c s sid space pats Er) as (acct & EC & Hel).
+    unfold spec_sub. rewrite R1, EC, R4, Eip, forallb_valid_spec, (p_member_eq s p space acct R2).
+    fold (sub_elig c s acct space pats). rewrite Hel.
+    eexists. split; [reflexivity|].
+    destruct (sub_mid_frame c s sid sid space pats HI) as (Fc & Fm & Fr & Fp).
+    destruct (reg_add_spec sid space pats (p_reg p)) as [Hm Hn].
+    constructor; unfold after_break; cbn [p_accts p_mem p_passed p_pooled p_reg]; try congruence.
+    + intros x. rewrite memN_filter, R4, Fp. reflexivity.
+    + apply NoDup_filter. exact R5.
+    + intros sigma sp0 q. rewrite mem_triple_filter, Hm, R6, (has_sub_mid_self c s sid space pats HI).
+      cbn [tr_sid tr_space tr_pat fst snd]. destruct (N.eqb sigma sid); cbn [negb andb]; [rewrite !andb_false_r; reflexivity|].
+      rewrite orb_false_r. reflexivity.
+    + apply NoDup_filter. apply Hn. exact R7.
+  - (* otherwise: the Subscribe as a whole, then the victim's removal *)
+    destruct (sim_sub c s p sid space pats HI HR) as (p1 & Hs1 & HR1).
+    unfold svc_step, svc_step_gen in Hs1, HR1. fold (handle_sub c s sid space pats) in Hs1, HR1. cbn [spec_step] in Hs1.
+    rewrite Hs1.
+    assert (HI1 : Inv (fst (handle_sub c s sid space pats))) by (apply inv_sub; exact HI).
+    destruct (sim_break c (fst (handle_sub c s sid space pats)) p1 victim HI1 HR1) as (p2 & Hs2 & HR2).
+    unfold svc_step, svc_step_gen in Hs2, HR2. cbn [fst snd spec_step] in Hs2, HR2. inversion Hs2; subst p2.
+    exists (after_break p1 victim). split; [reflexivity|].
+    rewrite (proj1 (mid_state c s sid victim space pats HI)). unfold mid_pre. rewrite Em. exact HR2.
 Qed.
 
 (* ------------------------------------------------------------------ the simulation, and the theorem *)
@@ -914,6 +1001,7 @@ Proof.
   - apply sim_closespace; assumption.
   - apply sim_setmember; assumption.
   - apply sim_snap; assumption.
+  - apply sim_submid; assumption.
 Qed.
 
 Lemma spec_from : forall c evs s p, Inv s -> ndR s -> rel s p -> NoDup (opens evs) ->
@@ -943,4 +1031,26 @@ Theorem model_satisfies_spec_svc : forall c evs, fresh_opens evs ->
   spec_C17_svc c evs (svc_run c svc_init evs) = true.
 Proof.
   intros c evs H. unfold spec_C17_svc. apply spec_from; [apply inv_init|constructor|apply rel_init|exact H|reflexivity].
+Qed.
+
+(* ------------------------------------------------------------------ the subscribe/close race, over all histories *)
+(* After ANY history: a Subscribe on [sid] during which stream [victim] is removed from the pool (at the
+   latest possible point: after the interest was recorded, right before pool.AddTagsCtx) leaves the registered
+   interest of "Subscribe, then removal of victim" and un-pools exactly the victim.  If the subscribing stream
+   itself is the one that leaves, nothing is registered and every other stream keeps exactly its interest. *)
+Theorem subscribe_close_race : forall c evs sid victim space pats, fresh_opens evs ->
+  let s := svc_exec c svc_init evs in
+  let s' := svc_exec c svc_init (evs ++ [ESubMid sid victim space pats]) in
+  (forall sigma sp0 q,
+     has s' sigma sp0 q = has (fst (handle_sub c s sid space pats)) sigma sp0 q && negb (N.eqb sigma victim))
+  /\ (forall x, in_pool s' x = in_pool s x && negb (N.eqb x victim))
+  /\ (victim = sid -> forall sigma sp0 q, has s' sigma sp0 q = has s sigma sp0 q && negb (N.eqb sigma sid)).
+Proof.
+  intros c evs sid victim space pats HF. cbv zeta. rewrite svc_exec_app.
+  pose proof (reachable_inv c evs HF) as HI. set (s := svc_exec c svc_init evs) in *.
+  change (svc_exec c s [ESubMid sid victim space pats]) with (fst (handle_sub_mid c s sid victim space pats)).
+  split; [|split].
+  - apply has_sub_mid. exact HI.
+  - apply (sub_mid_frame c s sid victim space pats HI).
+  - intros ->. apply has_sub_mid_self. exact HI.
 Qed.
